@@ -38,6 +38,7 @@ class Corpus:
         self.where = {}           # pid -> package dir name (under src/ and out/)
         self.rejected = {}        # pid -> compiler panic text
         self.unbuildable = {}     # pid -> first type error
+        self.missing = {}         # pid -> the compiler ran without a diagnostic but wrote no file for it
         self.compile_s = 0.0
         self.twin_where = {}      # pid -> twin package dir (under twin/)
         self.driver_bin = None
@@ -112,6 +113,11 @@ class Corpus:
         r = self._run_driver("compile", [(src, out)])[0]
         shutil.rmtree(out + "_tmp", ignore_errors=True)
         if r["ok"] and os.path.isdir(out):
+            for f in sorted(os.listdir(src)):
+                if f.startswith("gen_") and not os.path.exists(os.path.join(out, f)):
+                    pid = f[4:-3]
+                    self.missing[pid] = "no output file although the compiler reported no problem"
+                    self.where.pop(pid, None)
             return [d]
         files = sorted(f for f in os.listdir(src) if f.startswith("gen_"))
         shutil.rmtree(out, ignore_errors=True)
